@@ -17,7 +17,10 @@ type ciscoTarget struct {
 
 func genCisco(kind string, seed int64) *genCase {
 	rng := rand.New(rand.NewSource(seed))
-	gen := &mcisco.Gen{Rng: rng, Kind: kind}
+	gen := &mcisco.Gen{Rng: rng, Kind: kind, WithVPN: true}
+	// Every fourth pair comes from the small universe (many overlaps and
+	// duplicates of entries between ACLs).
+	gen.Small = seed%4 == 3
 	t := gen.Target()
 	d, ops := gen.Device(t, rng.Intn(6), true)
 	g := &genCase{Type: kind, Seed: seed, Edits: ops}
@@ -144,7 +147,7 @@ func ciscoEquiv(dev, tgt *mcisco.Device) (c *clause, anomaly string) {
 	if a, b := strings.Join(dr, "\n"), strings.Join(tgt.Routes(), "\n"); a != b {
 		return &clause{"routes-differ", firstDiffLine(a, b)}, anomaly
 	}
-	if a, b := strings.Join(dev.OtherCanon(), "\n"), strings.Join(tgt.OtherCanon(), "\n"); a != b && len(tgt.OtherCanon()) > 0 {
+	if a, b := strings.Join(dev.OtherCanon(managed), "\n"), strings.Join(tgt.OtherCanon(managed), "\n"); a != b {
 		return &clause{"vpn-objects-differ", firstDiffLine(a, b)}, anomaly
 	}
 	return nil, anomaly
